@@ -267,7 +267,12 @@ Definition aexit (c : card) (s : sstate) (e : option exn) : sstate * list frame 
   else
     let go st m := let '(s', out, _) := send_trailing c s st m in (s', out) in   (* StreamClosedError: pass *)
     match e with
-    | Some (EGRPC st m) => go st m
+    | Some (EGRPC st m) =>
+        (* isinstance(exc_val, GRPCError) and not (status is OK and unary reply and no message sent);
+           otherwise the error is an Exception like any other *)
+        if aexit_grpc_ok_unary_as_exception && (st =? status_ok) && negb (server_streaming c) && negb (msg_done s)
+        then go (fst aexit_exception) (snd aexit_exception)
+        else go st m
     | Some EExc => go (fst aexit_exception) (snd aexit_exception)
     | Some EBase => (s, [])                   (* `return None`: propagated, nothing is sent *)
     | None =>
